@@ -17,6 +17,12 @@ check("C19", "exploration",
       "f64 reference uses the platform libm; f64 functions are decided on lattices, not on all 2^64 patterns; tolerance for 10^(dB/20) grows with |dB| because the f32 division dB/20 is part of the documented formula.",
       "DESIGN.md §3 C19")
 
+check("C06", "model_checking",
+      "exhaustive operation-sequence enumeration of the real Parameter<T>/Tweener against a reference tween model (all update-step partitions x overlapping set() placements), plus documented laws",
+      "Every sequence of <= 6 updates with dt in {0.5,1,2} (all 3^6 partitions), for 11 tweenable types and the tweener modulator, 8 start modes, 5 durations (incl. 0 and shorter than one update), 7 easings, ordered value pairs and every placement of a second (thorough: third) overlapping set(), is executed on the real code in lock-step with an independent reference model; value, finished-flag, chunk continuity (previous_value/interpolated_value), range, exact end value, start-time and partition-independence laws are asserted after every update. Bounded exhaustive: all histories up to the stated depth over the stated alphabet.",
+      "time steps are binary-exact; Quat compared with an f64 slerp reference (1e-5 rad), other types bit-exactly; behaviour of a clock pausing in mid-tween is not fixed by the statement and not demanded; Value::FromModulator targets are covered under C17.",
+      "DESIGN.md §3 C06")
+
 NOT_YET = {}
 
 def main():
